@@ -180,6 +180,47 @@ def twin(exe, root, seed, stats):
     shutil.rmtree(root, ignore_errors=True)
     return problems
 
+def lost_split_dir(exe, root, seed, stats):
+    """the splits of a level live in DIFFERENT directories (devices); the directory of one of them - first, middle or last -
+    is gone together with a data file: fix --force-device skips the level that cannot be opened and recovers from the
+    other level, exactly as it does for a one-file parity whose directory is gone"""
+    import shutil
+    rng = e2e.Rng(seed)
+    nsp = rng.choice([1, 2, 3, 3])
+    a = e2e.Arr(root, exe, ndisks=2 + rng.below(2), nparity=2, ncontent=1, splits=nsp)
+    pdirs = [os.path.join(a.root, 'pdev%d' % k) for k in range(nsp)]
+    for pd in pdirs: os.makedirs(pd, exist_ok=True)
+    orig = a.parity_files
+    a.parity_files = lambda level: ([os.path.join(pdirs[k], 'parity.%d' % k) for k in range(nsp)] if level == 0 else [os.path.join(a.root, 'par', '2-parity')])
+    a.level_split_counts = [nsp, 1]
+    a.write_conf()
+    s = sim.Sim(a, rng.fork(), weird_names=False)
+    s.populate(2 + rng.below(2))
+    limit = rng.choice([8 * 1024 + 100, 12 * 1024, 15 * 1024 + 1, 20 * 1024])
+    lim = ['--test-parity-limit=%d' % limit] if nsp > 1 else []
+    if s.sync(*lim).rc != 0:
+        a.destroy(); return None
+    used = [k for k in range(nsp) if os.path.exists(a.parity_files(0)[k]) and os.path.getsize(a.parity_files(0)[k]) > 0]
+    snap = a.snapshot()
+    files = s.existing_files()
+    if not files or not used:
+        a.destroy(); return None
+    d, rel = rng.choice([f for f in files if os.path.getsize(a.path(*f)) > 0] or files)
+    os.unlink(a.path(d, rel))
+    k = rng.below(nsp)
+    shutil.rmtree(pdirs[k])
+    r = a.cmd('fix', '--force-device', *lim)
+    stats['lost_split_dir'] = stats.get('lost_split_dir', 0) + 1
+    now = a.snapshot()
+    w = now.get((d, rel)); v = snap.get((d, rel))
+    problem = None
+    if w is None or w[0] != 'f' or w[1] != v[1]:
+        problem = '[lost-split-dir] level 1 of 2 has %d split(s) in separate directories, the directory of split %d (used splits %s) is gone with %s/%r: fix --force-device does not recover the file from the other level (exit %d): %s' % (
+            nsp, k, used, d, rel, r.rc, r.out[-200:].replace('\n', ' '))
+    hist = '\n'.join(s.history)
+    a.destroy()
+    return [(problem + ' seed=%d' % seed, problem + '\n' + hist)] if problem else None
+
 def main(tier, seed):
     chk = vlib.Check('C17', 'proof', tier, seed)
     chk.assumptions = ['file system abstracted as "growing a split to t bytes succeeds iff t <= limit" (exactly what --test-parity-limit simulates)',
@@ -198,12 +239,14 @@ def main(tier, seed):
         chk.violation('build of /repo failed: ' + str(e)[:300], str(e), False, 'build'); chk.finish()
     nl, nt = (120, 32) if tier == 'quick' else (1500, 300)
     stats = {'chsize': 0, 'ok': 0, 'fail': 0, 'compares': 0, 'fixes': 0}
-    jobs = [('leaf', i) for i in range(nl)] + [('twin', i) for i in range(nt)]
+    jobs = [('leaf', i) for i in range(nl)] + [('twin', i) for i in range(nt)] + [('lsd', i) for i in range(16 if tier == 'quick' else 160)]
     def job(j):
         kind, i = j
         root = os.path.join(vlib.scratch(), '%s%d' % (kind, i))
         if kind == 'leaf':
             return leaf_split(leaf, root, seed * 100000 + 80000 + i, stats)
+        if kind == 'lsd':
+            return lost_split_dir(exe, root, seed * 100000 + 95000 + i, stats)
         return twin(exe, root, seed * 100000 + 90000 + i, stats)
     with ThreadPoolExecutor(vlib.NCPU) as ex:
         res = list(ex.map(job, jobs))
@@ -218,7 +261,7 @@ def main(tier, seed):
             chk.violation('C17 static obligation failed: ' + o[0], o[0] + '\n' + o[2], False, 'static')
     chk.evaluations = stats['chsize'] + stats['compares']
     chk.distinct = stats['chsize']
-    chk.rule = ('SPLIT: %d seeded sequences of 10-20 parity_chsize calls (growth, shrink across split boundaries, re-open) on 1..8 real split files with size limits 0, aligned, non-aligned, hit mid-growth; return code, recorded sizes and file sizes compared call by call with the Lean chsize model, plus sum-of-sizes and only-last-used-split-grows predicates. TWIN: %d pairs of arrays with the same history, 2-4 splits with --test-parity-limit vs one file: concatenated splits must be byte-identical to the single parity after every sync and after fix of a lost split; recorded split sizes (Lean-decoded Q records) must equal the file sizes' % (nl, nt))
+    chk.rule = ('SPLIT: %d seeded sequences of 10-20 parity_chsize calls (growth, shrink across split boundaries, re-open) on 1..8 real split files with size limits 0, aligned, non-aligned, hit mid-growth; return code, recorded sizes and file sizes compared call by call with the Lean chsize model, plus sum-of-sizes and only-last-used-split-grows predicates. TWIN: %d pairs of arrays with the same history, 2-4 splits with --test-parity-limit vs one file: concatenated splits must be byte-identical to the single parity after every sync and after fix of a lost split; recorded split sizes (Lean-decoded Q records) must equal the file sizes; splits in separate directories, one directory lost with a data file: fix --force-device recovers from the other level' % (nl, nt))
     chk.samples = [dict(stats)]
     chk.corr['SPLIT+TWIN'] = dict(stats)
     chk.finish()
